@@ -336,6 +336,11 @@ def run_hook(case):
         except OSError:
             pass
     in_file.close()
+    for sk in (scr._resize_pipe_rd, scr._resize_pipe_wr):
+        try:
+            sk.close()
+        except OSError:
+            pass
     return {"trace": tr, "out": out, "sig": final, "started": started, "ncb": S.n, "cbreak": cbreak}
 
 
@@ -689,9 +694,8 @@ class C12(core.Check):
                   "topmost widget and unhandled_input iff not handled, arrival order, render+draw after every round) cut "
                   "right after the first faulting invocation; (2) a first fault ExitMainLoop makes run() return normally, a "
                   "first fault `raise e` makes exactly e leave run(), and nothing else can leave run(); (3) the display is "
-                  "stopped and every terminal mode, the tty settings and the SIGWINCH/SIGTSTP handlers are as before run() on "
-                  "every path (premise: the SIGCONT handler was SIG_DFL; without it the clause is REFUTED in the model, "
-                  "always_restored_full_refuted, and on the implementation: known finding).  These are theorems about the "
+                  "stopped and every terminal mode, the tty settings and the SIGWINCH/SIGTSTP/SIGCONT handlers (whatever they "
+                  "were) are as before run() on every path (always_restored_full).  These are theorems about the "
                   "MODEL of urwid's control flow.  The model is tied to the code by exact correspondence of the full call trace "
                   "(screen calls, DEC private mode writes in write order, callbacks), outcome, final modes and signal handlers "
                   "with the real MainLoop + SelectEventLoop driving the real raw_display.Screen on pipes (no tty) and a plain "
@@ -720,7 +724,6 @@ class C12(core.Check):
         "the screen is stopped (or started by the application through screen.start()) when run() is entered; terminal in its initial modes",
         "pop_ups=True wraps a urwid.Widget (which always has mouse_event)",
         "pty / termios / signal delivery / third-party loop runtimes are observed (oracle), not modelled",
-        "SIGCONT handler is SIG_DFL before run() (otherwise: known finding C12-sigcont-handler-reset-to-default)",
     ]
 
     WORKER_TIMEOUT = 15
@@ -766,6 +769,10 @@ class C12(core.Check):
         return res
 
     def _ask_worker1(self, case):
+        # a fresh worker every few hundred sessions: descriptors kept alive by reference cycles cannot pile up
+        self._served = getattr(self, "_served", 0) + 1
+        if self._served % 400 == 0:
+            self._kill_worker()
         w = self._worker()
         try:
             w.stdin.write(json.dumps(case) + "\n")
@@ -1151,7 +1158,7 @@ class C12(core.Check):
                 for w in self.WIDGETS[:2]:
                     yield {"kind": "plain", "cfg": dict(cfg), "widget": w, "inputs": s}
 
-    def random_case(self, rng, kind=None, sigcont=False):
+    def random_case(self, rng, kind=None):
         kind = kind or rng.choice(["hook", "hook", "plain"])
         codes = [97, 98, 99, 100, 101, 12]
 
@@ -1165,9 +1172,7 @@ class C12(core.Check):
                "paste": rng.random() < 0.4, "focus": rng.random() < 0.4, "prestarted": rng.random() < 0.2,
                "tty": rng.random() < 0.3,
                "pre_alarms": [rng.randrange(1, 9) for _ in range(rng.choice([0, 0, 1, 2]))],
-               # (a non-default SIGCONT handler is the known finding: kept rare so that it cannot crowd out
-               #  other violations in the bounded violation list of the pipeline)
-               "sig": [rng.choice([0, 0, 1, 2]), rng.choice([0, 0, 1, 2]), rng.choice([1, 2]) if sigcont else 0]}
+               "sig": [rng.choice([0, 0, 1, 2]), rng.choice([0, 0, 1, 2]), rng.choice([0, 0, 1, 2])]}
         wc = {"selectable": rng.random() < 0.8, "has_mouse": True,
               "keys": {str(cd): rng.choice([0, 0, cd, rng.choice(codes)]) for cd in rng.sample(codes, rng.randrange(0, 4))},
               "mouse": rng.sample([1, 2, 3], rng.randrange(0, 3)), "cursor": rng.random() < 0.5}
@@ -1264,8 +1269,8 @@ class C12(core.Check):
         for base in ({"kind": "hook", "cfg": {"filter": [], "unhandled": 0, "pop_ups": False}, "widget": self.DUCK,
                       "rounds": [[["in", [[1, 98, 0, 0], [2, 1, 1, 1]]]]]},):
             yield from self.with_faults(base)
-        for i in range(1500 if tier == "quick" else 20000):
-            yield self.random_case(rng, sigcont=(i % (150 if tier == "quick" else 1000) == 7))
+        for _ in range(1500 if tier == "quick" else 20000):
+            yield self.random_case(rng)
         yield from self.prefetching(self.pty_cases(tier))
 
     def search_cases(self, rng, tier):
